@@ -5,6 +5,7 @@ mod diff;
 mod gl;
 mod goexec;
 mod goldens;
+mod irmon;
 mod mutators;
 mod projdrv;
 mod reduce;
